@@ -387,7 +387,24 @@ def inline_helpers(tree, modname, ref, rounds=3):
     if total:
         _drop_dead_helpers(tree, modname, known)
         _drop_identity_assignments(tree)
+        _flatten_starred(tree)
     return total
+
+
+def _flatten_starred(tree):
+    """`(*(a, b), c)` -> `(a, b, c)`"""
+    for node in ast.walk(tree):
+        if isinstance(node, (ast.Tuple, ast.List)) and any(
+                isinstance(e, ast.Starred) and isinstance(
+                    e.value, (ast.Tuple, ast.List)) for e in node.elts):
+            new = []
+            for e in node.elts:
+                if isinstance(e, ast.Starred) and isinstance(
+                        e.value, (ast.Tuple, ast.List)):
+                    new.extend(e.value.elts)
+                else:
+                    new.append(e)
+            node.elts = new
 
 
 def _drop_identity_assignments(tree):
@@ -533,11 +550,67 @@ def _inline_in_function(func, owner, classes, modfuncs, known):
                     h.body = do_block(h.body)
             rep = stmt_inline(st)
             if rep is None:
+                rep = hoist_inline(st)
+            if rep is None:
                 out.append(st)
             else:
                 n += 1
                 out.extend(rep)
         return out
+
+    def hoist_inline(st):
+        """`for x in self.h(a):` / `y = f(self.h(a))` where h is a few
+        plain assignments followed by `return <expr>`: the assignments are
+        placed in front of the statement, the call becomes the expression"""
+        if isinstance(st, (ast.For, ast.AsyncFor)):
+            heads = [("iter", st.iter)]
+        elif isinstance(st, ast.If):
+            heads = [("test", st.test)]
+        elif isinstance(st, (ast.Assign, ast.AugAssign, ast.AnnAssign,
+                             ast.Return, ast.Expr)):
+            heads = [("value", st.value)] if getattr(
+                st, "value", None) is not None else []
+        else:
+            return None
+        for fld, head in heads:
+            for c in ast.walk(head):
+                r = helper_of(c)
+                if r is None:
+                    continue
+                h, is_m = r
+                if isinstance(h, ast.AsyncFunctionDef) or _is_generator(h):
+                    continue
+                body = _body_no_doc(h)
+                if len(body) < 2 or not isinstance(body[-1], ast.Return) \
+                        or body[-1].value is None or not all(
+                            isinstance(b, ast.Assign) and len(b.targets) == 1
+                            and isinstance(b.targets[0], ast.Name)
+                            for b in body[:-1]):
+                    continue
+                pb = _prepare_body(h, c, is_m)
+                if pb is None:
+                    continue
+                pro, nb = pb
+                # the helper's locals must not collide with the caller's
+                mine = {x.id for x in ast.walk(func) if isinstance(
+                    x, ast.Name)} | {a.arg for a in ast.walk(func)
+                                     if isinstance(a, ast.arg)}
+                theirs = {b.targets[0].id for b in nb[:-1]} | {
+                    p.targets[0].id for p in pro}
+                if mine & theirs:
+                    continue
+                ret = nb[-1].value
+
+                class R(ast.NodeTransformer):
+                    def visit_Call(self, node):
+                        if node is c:
+                            return ast.copy_location(ret, node)
+                        self.generic_visit(node)
+                        return node
+                setattr(st, fld, R().visit(head))
+                ast.fix_missing_locations(st)
+                return pro + nb[:-1] + [st]
+        return None
 
     def stmt_inline(st):
         # for T in helper(args): BODY   (generator helper)
